@@ -3,6 +3,8 @@ NEXT MNext
 CONSTANTS
   MaxStmts = 1
   MaxDepth = 1
+  UseY = FALSE
+  Cats = {"assign-v", "unpack", "aug", "expr", "return", "assert", "save", "mut"}
 INVARIANT Inhabited
 INVARIANT EmitDone
 CHECK_DEADLOCK FALSE
